@@ -62,7 +62,7 @@ func c12IsoYAML(variant int) (string, error) {
 		b.pc.Outs = []c12Out{{Env: []int{3, 4}}}
 		y := b.pc.yaml([]int{0})
 		y = strings.Replace(y, "keys: [app]\n  tag: t.$app", "keys: [app, source]\n  tag: t.$app.$source", 1)
-		y = strings.Replace(y, "metricKeys: [host]", "metricKeys: [host, pid]", 1)
+		y = strings.Replace(y, "metricKeys: [pid]", "metricKeys: [host, pid]", 1)
 		return y, nil
 	}
 	return "", fmt.Errorf("unknown variant")
@@ -114,8 +114,10 @@ func (s *c12IsoSer) SerializeRecord(r *base.LogRecord) base.LogStream {
 // c12ReleaseWatch wraps the chunk maker: WriteStream is called right after Release(record)
 type c12NopChunkMaker struct{ inner base.LogChunkMaker }
 
-func (c *c12NopChunkMaker) WriteStream(s base.LogStream) *base.LogChunk { return c.inner.WriteStream(s) }
-func (c *c12NopChunkMaker) FlushBuffer() *base.LogChunk                 { return c.inner.FlushBuffer() }
+func (c *c12NopChunkMaker) WriteStream(s base.LogStream) *base.LogChunk {
+	return c.inner.WriteStream(s)
+}
+func (c *c12NopChunkMaker) FlushBuffer() *base.LogChunk { return c.inner.FlushBuffer() }
 
 func c12IsoDescribe(c *Case) string {
 	v := int64(0)
